@@ -82,3 +82,48 @@ def d_trig_small():
     for t in TRIG:
         for d in (t, t + "\n" + t, t + "\n" + t + "\n" + t, "x\n" + t + "\n" + t, t + "\n\n" + t, "x\ny " + t + " and " + t + " z\n" + t):
             yield d + "\n"
+
+
+_CORPUS = None
+
+
+def repo_corpus(repo="/repo"):
+    """the project's own test documents: every string bound to `source_markdown` in test/**/*.py (deduplicated, in file order)"""
+    global _CORPUS
+    if _CORPUS is not None:
+        return _CORPUS
+    import ast
+    import glob
+    import os
+    out = {}
+    for p in sorted(glob.glob(os.path.join(repo, "test", "**", "*.py"), recursive=True)):
+        try:
+            tree = ast.parse(open(p, encoding="utf-8").read())
+        except Exception:
+            continue
+        def const(e):
+            if isinstance(e, ast.Constant) and isinstance(e.value, str):
+                return e.value
+            if isinstance(e, ast.Call) and isinstance(e.func, ast.Attribute) and e.func.attr == "replace" and len(e.args) == 2:
+                b, x, y = const(e.func.value), const(e.args[0]), const(e.args[1])
+                if None not in (b, x, y):
+                    return b.replace(x, y)
+            return None
+
+        for n in ast.walk(tree):
+            s = None
+            if isinstance(n, ast.Assign) and len(n.targets) == 1 and isinstance(n.targets[0], ast.Name) and n.targets[0].id in ("source_markdown", "source_file_contents"):
+                s = const(n.value)
+            elif isinstance(n, ast.keyword) and n.arg in ("source_file_contents", "source_markdown"):
+                s = const(n.value)
+            if s and s.strip() and len(s) < 3000:
+                out.setdefault(s, os.path.relpath(p, repo))
+    for p in sorted(glob.glob(os.path.join(repo, "test", "resources", "**", "*.md"), recursive=True)):
+        try:
+            s = open(p, encoding="utf-8").read()
+        except Exception:
+            continue
+        if s.strip() and len(s) < 3000:
+            out.setdefault(s, os.path.relpath(p, repo))
+    _CORPUS = list(out)
+    return _CORPUS
